@@ -118,20 +118,30 @@ NOT_BUILT = 'check not built yet in this session (see DESIGN.md §5 for the plan
 # clauses added after the fourth round of seeded changes (DESIGN §11 round 4) and the findings they led to
 GEN = (' Generic defect patterns are decided on the files the property is anchored in before the specific rules run: no class-level '
        'mutable container is mutated through an instance (R31), no closure kept beyond a loop iteration reads a variable the loop rebinds '
-       '(R32), no mapping keyed by an itertools.groupby key is built over a sequence that is not sorted by that key (R33).')
+       '(R32), no mapping keyed by an itertools.groupby key is built over a sequence that is not sorted by that key (R33), and no step class or '
+       'step factory in those files leaves state to the next run of the same step object (R34: nothing accumulated into constructor state, no '
+       'factory-scope name rebound by a run and read before it is set, no object the factory was given changed in place).')
 MORE = {
     'C01': ' R34c (helpers only): a helper processor built by Flow._chain holds nothing a run uses up unless _chain builds the chain on every call.'
            ' R1k replays every path of the dispatch loop on a finite set of abstract link kinds (nested Flow, processor, function, bound method, '
            'partial / callable object, empty and non-empty list / tuple of rows, generator, None, integer; vacuous all()/any() over an empty '
-           'collection evaluated as such): a path a kind definitely takes must end in the outcome that kind calls for.',
+           'collection evaluated as such): a path a kind definitely takes must end in the outcome that kind calls for.'
+           ' results() differs from process() / datastream() only by the schema validator: its row loop (shared clause VAL with C14) yields each '
+           'row itself with, per checked field, that field\'s own cast of that row\'s value.',
     'C03': ' R12w: starting from FileFormat.write_row and following every self / super call that is handed the row, no writer method keeps the '
            'row or the transformed row in its own state (the bytes of a row are fixed before it continues downstream). R19d: no path of '
            'write_file_to_output that skips an existing file is open to datapackage.json.',
-    'C04': ' The rename that commits a stream file, or a helper containing it, is called from the package step only (who-may-reach clause of R15).',
+    'C04': ' The rename that commits a stream file, or a helper containing it, is called from the package step only (who-may-reach clause of R15).'
+           ' R14s: the source error stashed by iterable_loader is read after inference, compared with None (never tested for truth) and re-raised '
+           'before the descriptor is added.',
     'C05': ' R12w (writer keeps no row) as in C03; who-may-reach clause of R15 for the stream writer.',
-    'C02': ' R11i: the stream iterable_loader adds is <the inferred Resource>.iter(keyed=True), so rows are projected onto the inferred fields.',
+    'C02': ' R11i: the stream iterable_loader adds is <the inferred Resource>.iter(keyed=True), so rows are projected onto the inferred fields.'
+           ' CMP (shared with C15): add_computed_field hands each operation exactly the row\'s non-null source values, which is what the abstract '
+           'evaluation of the operation table (R18c) assumes.',
     'C16': ' SRC: a sub-flow resource of sources() is never re-paired through a lookup keyed by its name.',
-    'C17': ' The matcher-asked clause of R6c for filter_rows / deduplicate / unpivot.',
+    'C17': ' The matcher-asked clause of R6c for filter_rows / deduplicate / unpivot. KEY-DERIVATION: per unpivoted field and key template, '
+           'path by path, keys[k] = re.sub(entry name, template, field name) exactly when regex is on and the template is a string, otherwise '
+           'the template; the mapping is fresh per field and stored as the field\'s keys.',
     'C19': ' R14 (with contextlib.suppress counted as a handler) over the driver and the dumper modules.',
     'C06': ' R13h: a stream a step has yielded downstream is not drained, materialised or iterated by that step in the statements that follow '
            '(how far a stream is read is decided by its consumer alone).',
@@ -141,11 +151,12 @@ MORE = {
            'component the encoder makes None exactly for naive datetimes, and never tests a decoded value for truth. R34c: nothing a run uses up '
            '(open file / archive / key-value store, generator, DataStream) is created by a constructor or step factory (known: stream, unstream).',
     'C08': ' Who-may-reach clause of R15: only the package step reaches the rename.',
-    'C09': ' R19d: every write_file_to_output path that returns without placing the file carries a test that excludes the descriptor, so the '
+    'C09': ' Writing through a with block and json.dumps + write are read as close-after-block and json.dump (file idioms). R19d: every write_file_to_output path that returns without placing the file carries a test that excludes the descriptor, so the '
            'descriptor on disk is always the one of this run.',
     'C10': ' A step that builds a matcher and does more to a resource stream than hand it on asks the matcher in its stream phase too (R6c). '
            'R9 also demands that a user pattern anchored by concatenation is enclosed in a group (an alternation escapes ^...$).',
-    'C12': ' R32 (late-binding closures) on the key calculator.',
+    'C12': ' R32 (late-binding closures) on the key calculator. KEYW: the stored key is <key calculator>(row) + row number and '
+           'KeyCalc.__call__ returns what the calculator returns for the row on every path (no cut, fold or strip on the way to the store).',
     'C13': ' R33 (groupby over unsorted headers) on the header de-duplication; limit_rows is tested against None and the limiter yields nothing for 0.',
     'C14': ' R9 grouping clause on the field-name pattern of set_type.',
     'C15': ' R9 grouping clause on the field-name patterns of delete_fields / select_fields / rename_fields.',
@@ -155,7 +166,7 @@ MORE = {
 for _pid, _c in CHECKS.items():
     _c['text'] = _c['text'] + MORE.get(_pid, '') + GEN
     if 'generic defect-pattern rules' not in _c['technique']:
-        _c['technique'] = _c['technique'] + '; generic defect-pattern rules on the anchored files (shared class state, late-binding closures, groupby runs)'
+        _c['technique'] = _c['technique'] + '; generic defect-pattern rules on the anchored files (shared class state, late-binding closures, groupby runs, run idempotence)'
 
 def main():
     checks = []
